@@ -46,7 +46,10 @@ func (f *FileStream) ReadAll() ([]rune, error) {
 			return []rune{}, err
 		}
 
-		if len(res) == 0 {
+		// no character and no carried bytes: the end of the file.  (A read that yields
+		// no complete character but carries the head of one is NOT the end: the next
+		// read either completes the character or reports the truncated one.)
+		if len(res) == 0 && len(f.encBuffer) == 0 {
 			break
 		}
 		result = append(result, res...)
